@@ -11,6 +11,9 @@ Files are rewritten only when their content changes (so an unchanged tree does n
 
 Extractors:
   segment_tables   src/disk_store/partition_segment.rs  -> Gen/SegmentTables.lean   (C14)
+  registry_tables  src/engine/planning/query_plan.rs    -> Gen/Registry.lean        (C06, C03)
+  routing_consts   src/scheduler/inner_locustdb.rs (is_filesystem_safe), src/disk_store/storage.rs
+                   (sanitize_table_name, partition_filename)               -> Gen/RoutingConsts.lean   (C15)
 """
 import os
 import re
@@ -239,7 +242,355 @@ def segment_tables(repo):
     return "\n\n".join(parts) + "\n"
 
 
-EXTRACTORS = [("SegmentTables.lean", segment_tables)]
+# ------------------------------------------------------------------------------------------------ C06 / C03 registry
+def split_top(s, sep=","):
+    """Split at top-level separators (outside (), [], {} and closures' bodies)."""
+    out, depth, start = [], 0, 0
+    for i, c in enumerate(s):
+        if c in "([{":
+            depth += 1
+        elif c in ")]}":
+            depth -= 1
+        elif c == sep and depth == 0:
+            out.append(s[start:i])
+            start = i + 1
+    out.append(s[start:])
+    return [x.strip() for x in out if x.strip()]
+
+
+BT_NAMES = {"Integer": "integer", "Float": "float", "String": "string", "Boolean": "boolean", "Null": "null"}
+
+
+def registry_tables(repo):
+    """FUNCTION2_REGISTRY of src/engine/planning/query_plan.rs: for every Func2Type the ordered list of declarations
+    (factory = which planner node(s) the closure builds, input type signatures, encoding_invariance)."""
+    src = strip_comments(open(os.path.join(repo, "src/engine/planning/query_plan.rs")).read())
+
+    def lean_str(x):
+        return '"' + x.replace("\\", "\\\\").replace('"', '\\"') + '"'
+
+    def bt(x, tparam=None):
+        x = x.strip()
+        if tparam is not None and x == "t":
+            return tparam
+        m = re.fullmatch(r"BasicType::(\w+)", x)
+        if not m:
+            raise ValueError("registry: basic type %r" % x)
+        return BT_NAMES.get(m.group(1), "other")
+
+    def sigs_of(text, tparam=None):
+        m = re.search(r"input_type_signatures\s*:\s*vec!\s*\[", text)
+        if not m:
+            raise ValueError("registry: no input_type_signatures in %r" % text[:60])
+        i = m.end() - 1
+        inner = text[i + 1: matching(text, i, "[", "]")]
+        out = []
+        for tup in split_top(inner):
+            if not (tup.startswith("(") and tup.endswith(")")):
+                raise ValueError("registry: signature %r" % tup)
+            a, b = split_top(tup[1:-1])
+            out.append((bt(a, tparam), bt(b, tparam)))
+        return out
+
+    def invariance_of(text):
+        m = re.search(r"encoding_invariance\s*:\s*(true|false)", text)
+        if not m:
+            raise ValueError("registry: no encoding_invariance")
+        return m.group(1)
+
+    def factory_of(closure):
+        """`Box::new(|a, b, c| body)` -> Lean Factory term."""
+        m = re.search(r"Box::new\s*\(\s*\|([^|]*)\|", closure)
+        if not m:
+            raise ValueError("registry: factory closure %r" % closure[:60])
+        params = [x.strip() for x in m.group(1).split(",")]
+        body = closure[m.end():]
+        body = body[: body.rfind(")")].strip()
+        if body.startswith("{") and body.endswith("}"):
+            body = body[1:-1].strip()
+        body = re.sub(r"\s+", " ", body).rstrip(";").strip()
+        if len(params) == 3 and body == params[1] and params[1] != "_":
+            return ".forwardLeft"
+        if len(params) == 3 and body == params[2] and params[2] != "_":
+            return ".forwardRight"
+        qp, lhs, rhs = params
+        m1 = re.fullmatch(re.escape(qp) + r"\.(\w+)\(\s*" + re.escape(lhs) + r"\s*,\s*" + re.escape(rhs) + r"\s*\)", body)
+        if m1:
+            return ".call %s" % lean_str(m1.group(1))
+        m2 = re.fullmatch(re.escape(qp) + r"\.(\w+)\(\s*" + re.escape(lhs) + r"\s*,\s*" + re.escape(rhs) + r"\s*,\s*EncodingType::(\w+)\s*\)", body)
+        if m2:
+            return ".callEnc %s %s" % (lean_str(m2.group(1)), lean_str(m2.group(2)))
+        m3 = re.fullmatch(r"let (\w+) = " + re.escape(qp) + r"\.cast\(\s*(\w+)\s*,\s*EncodingType::(\w+)\s*\)\s*;\s*" + re.escape(qp)
+                          + r"\.(\w+)\(\s*" + re.escape(lhs) + r"\s*,\s*" + re.escape(rhs) + r"\s*,\s*EncodingType::(\w+)\s*\)", body)
+        if m3 and m3.group(1) == m3.group(2) and m3.group(1) in (lhs, rhs):
+            side = "true" if m3.group(1) == lhs else "false"
+            return ".castThen %s %s %s %s" % (side, lean_str(m3.group(3)), lean_str(m3.group(4)), lean_str(m3.group(5)))
+        return ".other %s" % lean_str(body[:120])
+
+    # helper constructors of `impl Function2`
+    helpers = {}
+    for m in re.finditer(r"pub fn (\w+)\s*\(([^)]*)\)\s*->\s*Function2\s*\{", src):
+        name, params = m.group(1), m.group(2)
+        i = m.end() - 1
+        body = src[i + 1: matching(src, i)]
+        pnames = [x.split(":")[0].strip() for x in params.split(",") if x.strip()]
+        fm = re.search(r"\bfactory\s*(?::\s*(Box::new\s*\(.*?\)\s*),\s*input_type_signatures|,)", body, flags=re.S)
+        if not fm:
+            raise ValueError("registry: helper %s has no factory" % name)
+        helpers[name] = {"params": pnames, "body": body, "fixed_factory": fm.group(1)}
+
+    body = fn_body(src, "function2_registry")
+    funcs = []
+    for m in re.finditer(r"Func2Type::(\w+)\s*,\s*vec!\s*\[", body):
+        i = m.end() - 1
+        inner = body[i + 1: matching(body, i, "[", "]")]
+        entries = []
+        for el in split_top(inner):
+            hm = re.match(r"Function2::(\w+)\s*\(", el)
+            if hm:
+                h = helpers.get(hm.group(1))
+                if h is None:
+                    raise ValueError("registry: unknown helper %s" % hm.group(1))
+                j = hm.end() - 1
+                args = split_top(el[j + 1: matching(el, j, "(", ")")])
+                if len(args) != len(h["params"]):
+                    raise ValueError("registry: helper %s arity" % hm.group(1))
+                amap = dict(zip(h["params"], args))
+                tparam = bt(amap["t"]) if "t" in amap else None
+                fac = factory_of(h["fixed_factory"]) if h["fixed_factory"] else factory_of(amap["factory"])
+                entries.append((fac, sigs_of(h["body"], tparam), invariance_of(h["body"])))
+            elif re.match(r"Function2\s*\{", el):
+                fm = re.search(r"\bfactory\s*:\s*", el)
+                j = el.index("Box::new", fm.end())
+                k = el.index("(", j)
+                clos = el[j: matching(el, k, "(", ")") + 1]
+                entries.append((factory_of(clos), sigs_of(el), invariance_of(el)))
+            else:
+                raise ValueError("registry: entry %r" % el[:60])
+        funcs.append((m.group(1), entries))
+    if not funcs:
+        raise ValueError("registry: no Func2Type entries found")
+    names = [f for f, _ in funcs]
+    if len(set(names)) != len(names):
+        raise ValueError("registry: duplicate Func2Type")
+
+    def ctor(n):
+        return n[:1].lower() + n[1:]
+
+    lines = [
+        "/-\n  GENERATED by tools/extract.py from /repo/src/engine/planning/query_plan.rs — do not edit.\n"
+        "  `function2_registry()`: for every Func2Type the declarations in source order (the planner takes the FIRST whose\n"
+        "  signature list contains the operands' basic types), with the planner node(s) each factory closure builds.\n-/",
+        "namespace LM.Gen.Registry",
+        "inductive BT where | integer | float | string | boolean | null | other\n  deriving DecidableEq, Repr",
+        "/-- What the factory closure does: `qp.<name>(lhs, rhs)`, `qp.<name>(lhs, rhs, EncodingType::<enc>)`,\n"
+        "    `let x = qp.cast(x, <to>); qp.<name>(lhs, rhs, <enc>)` (x = lhs iff `left`), return lhs / rhs unchanged. -/",
+        "inductive Factory where\n  | call (name : String)\n  | callEnc (name enc : String)\n  | castThen (left : Bool) (castTo name enc : String)\n"
+        "  | forwardLeft\n  | forwardRight\n  | other (src : String)\n  deriving DecidableEq, Repr",
+        "structure Entry where\n  factory : Factory\n  sigs : List (BT × BT)\n  encodingInvariance : Bool\n  deriving DecidableEq, Repr",
+        "inductive Func where\n" + "\n".join("  | %s" % ctor(n) for n in names) + "\n  deriving DecidableEq, Repr",
+        "def entries : Func → List Entry",
+    ]
+    for n, es in funcs:
+        lines.append("  | .%s => [" % ctor(n))
+        rows = []
+        for fac, sg, inv in es:
+            rows.append("      ⟨%s, [%s], %s⟩" % (fac, ", ".join("(.%s, .%s)" % ab for ab in sg), inv))
+        lines.append(",\n".join(rows) + "]")
+    lines.append("end LM.Gen.Registry")
+    return "\n\n".join(lines[:8]) + "\n\n" + "\n".join(lines[8:]) + "\n"
+
+
+# ------------------------------------------------------------------------------------------------ C17 status table
+# actix-web `HttpResponse::<Name>()` builder → status code
+ACTIX_STATUS = {
+    "Continue": 100, "SwitchingProtocols": 101, "Processing": 102,
+    "Ok": 200, "Created": 201, "Accepted": 202, "NonAuthoritativeInformation": 203, "NoContent": 204, "ResetContent": 205,
+    "PartialContent": 206, "MultiStatus": 207, "AlreadyReported": 208,
+    "MultipleChoices": 300, "MovedPermanently": 301, "Found": 302, "SeeOther": 303, "NotModified": 304, "UseProxy": 305,
+    "TemporaryRedirect": 307, "PermanentRedirect": 308,
+    "BadRequest": 400, "Unauthorized": 401, "PaymentRequired": 402, "Forbidden": 403, "NotFound": 404, "MethodNotAllowed": 405,
+    "NotAcceptable": 406, "ProxyAuthenticationRequired": 407, "RequestTimeout": 408, "Conflict": 409, "Gone": 410,
+    "LengthRequired": 411, "PreconditionFailed": 412, "PayloadTooLarge": 413, "UriTooLong": 414, "UnsupportedMediaType": 415,
+    "RangeNotSatisfiable": 416, "ExpectationFailed": 417, "ImATeapot": 418, "MisdirectedRequest": 421, "UnprocessableEntity": 422,
+    "Locked": 423, "FailedDependency": 424, "UpgradeRequired": 426, "PreconditionRequired": 428, "TooManyRequests": 429,
+    "RequestHeaderFieldsTooLarge": 431, "UnavailableForLegalReasons": 451,
+    "InternalServerError": 500, "NotImplemented": 501, "BadGateway": 502, "ServiceUnavailable": 503, "GatewayTimeout": 504,
+    "VersionNotSupported": 505, "VariantAlsoNegotiates": 506, "InsufficientStorage": 507, "LoopDetected": 508,
+}
+QUERY_ENDPOINTS = ["query", "query_cols", "multi_query_cols"]
+
+
+def status_tables(repo):
+    """`enum QueryError` (src/errors.rs), the arms of `map_err_response` and, per query endpoint handler, whether the
+    result of `run_query` goes through `map_err_response` or is `.unwrap()`ped (src/server/mod.rs)."""
+    esrc = strip_comments(open(os.path.join(repo, "src/errors.rs")).read())
+    m = re.search(r"\bpub\s+enum\s+QueryError\s*\{", esrc)
+    if not m:
+        raise ValueError("status: enum QueryError not found")
+    i = m.end() - 1
+    body = re.sub(r"#\[[^\]]*\]", "", esrc[i + 1: matching(esrc, i)])
+    variants = []
+    for part in split_top(body):
+        vm = re.match(r"(\w+)", part)
+        if not vm:
+            raise ValueError("status: variant %r" % part[:40])
+        variants.append(vm.group(1))
+    if not variants or len(set(variants)) != len(variants):
+        raise ValueError("status: variants %r" % variants)
+
+    ssrc = strip_comments(open(os.path.join(repo, "src/server/mod.rs")).read())
+
+    def status_of(body):
+        b = re.sub(r"\s+", "", body)
+        hm = re.search(r"HttpResponse::(\w+)\(\)", b)
+        if hm:
+            if hm.group(1) not in ACTIX_STATUS:
+                raise ValueError("status: unknown response builder %s" % hm.group(1))
+            if not re.search(r"Err\(HttpResponse::", b):
+                raise ValueError("status: response not returned as Err: %r" % b[:60])
+            return ACTIX_STATUS[hm.group(1)]
+        if re.match(r"\{?Ok\(", b):
+            return 200                       # the error is turned into a success value
+        raise ValueError("status: arm body %r" % b[:60])
+
+    specific, default, ok_passes = {}, None, False
+    for pat, abody in arms(match_block(fn_body(ssrc, "map_err_response"), r"\w+")):
+        p = re.sub(r"\s+", "", pat)
+        pm = re.match(r"Err\(QueryError::(\w+)", p)
+        if pm:
+            if pm.group(1) not in variants:
+                raise ValueError("status: arm for unknown variant %s" % pm.group(1))
+            if default is None and pm.group(1) not in specific:   # first matching arm wins
+                specific[pm.group(1)] = status_of(abody)
+        elif re.fullmatch(r"Err\((_|\w+)\)", p) or p == "_":
+            if default is None:
+                default = status_of(abody)
+        elif re.fullmatch(r"Ok\((\w+)\)", p):
+            ok_passes = re.sub(r"\s+", "", abody).rstrip(",") == p
+        else:
+            raise ValueError("status: arm pattern %r" % pat)
+    missing = [v for v in variants if v not in specific]
+    if missing and default is None:
+        raise ValueError("status: no arm for %s" % missing)
+
+    handlers = []
+    for ep in QUERY_ENDPOINTS:
+        hb = re.sub(r"\s+", "", fn_body(ssrc, ep))
+        maps = "map_err_response(" in hb
+        unwraps = re.search(r"run_query\([^;]*?\)\.await\.unwrap\(\)", hb) is not None
+        handlers.append((ep, maps, unwraps))
+
+    def b(x):
+        return "true" if x else "false"
+
+    lines = [
+        "/-\n  GENERATED by tools/extract.py from /repo/src/errors.rs and /repo/src/server/mod.rs — do not edit.\n"
+        "  `QErr` = the variants of `enum QueryError` in declaration order; `mapErrStatus` = one arm per arm of\n"
+        "  `map_err_response` (actix builder name → status code); `handlerMapsErrors` / `handlerUnwrapsResult` = per query\n"
+        "  endpoint handler, whether the awaited `run_query` result is passed to `map_err_response` / `.unwrap()`ped.\n-/",
+        "namespace LM.Gen.Status",
+        "/-- `enum QueryError`. -/\ninductive QErr where\n" + "\n".join("  | %s" % v for v in variants) + "\n  deriving DecidableEq, Repr",
+        "def QErr.all : List QErr := [" + ", ".join(".%s" % v for v in variants) + "]",
+        "def QErr.name : QErr → String\n" + "\n".join('  | .%s => "%s"' % (v, v) for v in variants),
+        "/-- `map_err_response`: status of the response an error value is turned into (200 = turned into a success). -/\n"
+        "def mapErrStatus : QErr → Nat\n" + "\n".join("  | .%s => %d" % (v, specific[v]) for v in variants if v in specific)
+        + ("\n  | _ => %d" % default if missing else ""),
+        "/-- The `Ok(result) => Ok(result)` arm is present. -/\ndef okPassesThrough : Bool := " + b(ok_passes),
+        "/-- The query endpoints of the server. -/\ninductive Endpoint where\n" + "\n".join("  | %s" % e for e in QUERY_ENDPOINTS)
+        + "\n  deriving DecidableEq, Repr",
+        "def Endpoint.all : List Endpoint := [" + ", ".join(".%s" % e for e in QUERY_ENDPOINTS) + "]",
+        "/-- The handler passes the awaited `run_query` result(s) to `map_err_response`. -/\ndef handlerMapsErrors : Endpoint → Bool\n"
+        + "\n".join("  | .%s => %s" % (e, b(mp)) for e, mp, _ in handlers),
+        "/-- The handler calls `.unwrap()` on the awaited `run_query` result (a failing query panics the handler). -/\n"
+        "def handlerUnwrapsResult : Endpoint → Bool\n" + "\n".join("  | .%s => %s" % (e, b(uw)) for e, _, uw in handlers),
+        "end LM.Gen.Status",
+    ]
+    return "\n\n".join(lines) + "\n"
+
+
+# ------------------------------------------------------------------------------------------------ C15 constants
+def routing_consts(repo):
+    """The literals the C15 model depends on: the byte bound and character predicate of `is_filesystem_safe`, the
+    truncation of `sanitize_table_name` (threshold and slice end), its retained / trimmed character sets, the condition
+    and format of the hash form, and the format string of `partition_filename`."""
+    isrc = strip_comments(open(os.path.join(repo, "src/scheduler/inner_locustdb.rs")).read())
+    ssrc = strip_comments(open(os.path.join(repo, "src/disk_store/storage.rs")).read())
+
+    def squash(x):
+        return re.sub(r"\s+", "", x)
+
+    def lean_str(x):
+        return '"' + x.replace("\\", "\\\\").replace('"', '\\"') + '"'
+
+    # is_filesystem_safe: `column_name.len() <= 64 && column_name.chars().all(|c| <pred>)`
+    fb = squash(fn_body(isrc, "is_filesystem_safe"))
+    m = re.fullmatch(r"column_name\.len\(\)(<=|<)(\d+)&&column_name\.chars\(\)\.all\(\|c\|(.*)\)", fb)
+    if not m:
+        raise ValueError("routing: is_filesystem_safe has an unexpected shape: %r" % fb[:80])
+    fs_cmp, fs_bound, fs_pred = m.group(1), int(m.group(2)), m.group(3)
+
+    # sanitize_table_name
+    sb = squash(fn_body(ssrc, "sanitize_table_name"))
+    m = re.search(r"name\.retain\(\|c\|(.*?)\);", sb)
+    if not m:
+        raise ValueError("routing: sanitize_table_name: retain(..) not found")
+    retain = m.group(1)
+    m = re.search(r"name\.trim_start_matches\(\[(.*?)\]\)", sb)
+    if not m:
+        raise ValueError("routing: sanitize_table_name: trim_start_matches([..]) not found")
+    trim = []
+    for ch in m.group(1).split(","):
+        cm = re.fullmatch(r"'(.)'", ch)
+        if not cm:
+            raise ValueError("routing: trim character %r" % ch)
+        trim.append(ord(cm.group(1)))
+    m = re.search(r"ifname\.len\(\)(>=|>)(\d+)\{name=name\[\.\.(\d+)\]\.to_string\(\);\}", sb)
+    if not m:
+        raise ValueError("routing: sanitize_table_name: truncation not found")
+    trunc_cmp, trunc_above, trunc_to = m.group(1), int(m.group(2)), int(m.group(3))
+    m = re.search(r"if(name!=table_name.*?)\{", sb)
+    if not m:
+        raise ValueError("routing: sanitize_table_name: hash-form condition not found")
+    hash_cond = m.group(1)
+    m = re.search(r'name=format!\("([^"]*)",name,hasher\.finalize\(\)\)', sb)
+    if not m:
+        raise ValueError("routing: sanitize_table_name: hash-form format not found")
+    hash_fmt = m.group(1)
+    if not re.search(r"hasher\.update\(table_name\.as_bytes\(\)\)", sb) or "Sha256::new()" not in sb:
+        raise ValueError("routing: sanitize_table_name: digest is not SHA-256 of the table name bytes")
+    lowered = sb.startswith("letmutname=table_name.to_lowercase();")
+
+    # partition_filename
+    pb = squash(fn_body(ssrc, "partition_filename"))
+    m = re.fullmatch(r'format!\("([^"]*)",id,subpartition_key\)', pb)
+    if not m:
+        raise ValueError("routing: partition_filename has an unexpected shape: %r" % pb[:80])
+    part_fmt = m.group(1)
+
+    lines = [
+        "/-\n  GENERATED by tools/extract.py from /repo/src/scheduler/inner_locustdb.rs (is_filesystem_safe) and\n"
+        "  /repo/src/disk_store/storage.rs (sanitize_table_name, partition_filename) — do not edit.\n"
+        "  Numeric literals are used by the model (`Disk/Routing.lean`); the textual ones (character predicates, conditions,\n"
+        "  format strings, whitespace removed) are compared with what the model mirrors by `C15_source_constants`.\n-/",
+        "namespace LM.Gen.RoutingConsts",
+        "/-- `is_filesystem_safe`: `column_name.len() <cmp> <bound>`. -/\ndef fsSafeCmp : String := %s\ndef fsSafeMaxBytes : Nat := %d" % (lean_str(fs_cmp), fs_bound),
+        "/-- `is_filesystem_safe`: the per-character predicate of `.chars().all(|c| …)`. -/\ndef fsSafeCharPred : String := %s" % lean_str(fs_pred),
+        "/-- `sanitize_table_name` starts with `table_name.to_lowercase()`. -/\ndef tableNameLowercased : Bool := %s" % ("true" if lowered else "false"),
+        "/-- `sanitize_table_name`: `name.retain(|c| …)`. -/\ndef tableNameRetain : String := %s" % lean_str(retain),
+        "/-- `sanitize_table_name`: `trim_start_matches([…])` (scalar values). -/\ndef tableNameTrim : List Nat := [%s]" % ", ".join(str(t) for t in trim),
+        "/-- `sanitize_table_name`: `if name.len() <cmp> <above> { name = name[..<to>] }`. -/\ndef tableNameTruncCmp : String := %s\n"
+        "def tableNameTruncAbove : Nat := %d\ndef tableNameTruncTo : Nat := %d" % (lean_str(trunc_cmp), trunc_above, trunc_to),
+        "/-- `sanitize_table_name`: when the hash form is used, and its format (`{:x}` of the SHA-256 digest of the name's bytes). -/\n"
+        "def tableNameHashCond : String := %s\ndef tableNameHashFormat : String := %s" % (lean_str(hash_cond), lean_str(hash_fmt)),
+        "/-- `partition_filename`: `format!(<fmt>, id, subpartition_key)`. -/\ndef partitionFilenameFormat : String := %s" % lean_str(part_fmt),
+        "end LM.Gen.RoutingConsts",
+    ]
+    return "\n\n".join(lines) + "\n"
+
+
+EXTRACTORS = [("SegmentTables.lean", segment_tables), ("Registry.lean", registry_tables), ("Status.lean", status_tables),
+              ("RoutingConsts.lean", routing_consts)]
 
 
 def regenerate(repo, gen_dir):
